@@ -11,7 +11,7 @@
 (* changed, so "nothing else changed" is checked on every event).          *)
 (* Verdict: ALL failing clauses, the spec path that judged the event.      *)
 (***************************************************************************)
-EXTENDS Arm, Json, IOUtils
+EXTENDS Props, Json, IOUtils
 
 Trace == ndJsonDeserialize(IOEnv.IN_FILE)
 Hdr   == Trace[1].h
@@ -71,28 +71,6 @@ StateDiffN(spec, impl, r, n0) ==
      (IF badcells # {} THEN <<"mem">> ELSE <<>>) \o
      (IF spec.ev # impl.ev THEN <<"ev">> ELSE <<>>)
 
------------------------------------------------------------------------------
-(* C19: privilege confinement, evaluated on the implementation's own pre/post *)
-PrivRegs == {"R8fiq", "R9fiq", "R10fiq", "R11fiq", "R12fiq", "SPfiq", "SPirq", "SPsvc", "SPabt", "SPund", "SPmon",
-             "SPhyp", "LRfiq", "LRirq", "LRsvc", "LRabt", "LRund", "LRmon"}
-VectorOffsets == {4, 8, 16, 20}
-ExcEntryShape(pre, post) ==
-  LET m == PM(post.cpsr) IN
-  /\ m \in {UND, SVC, ABT, MON, HYP}
-  /\ PM(post.spsr[SpsrName(m)]) = USR
-  /\ \E off \in VectorOffsets :
-        post.R.PC \in {AddInt(ExcVectorBase(post), off), AddInt(post.sys.MVBAR, off), AddInt(post.sys.HVBAR, off)}
-UserConfined(pre, post, osys) ==
-  PM(pre.cpsr) = USR =>
-    \/ /\ PM(post.cpsr) = USR
-       /\ PA(post.cpsr) = PA(pre.cpsr) /\ PI(post.cpsr) = PI(pre.cpsr) /\ PF(post.cpsr) = PF(pre.cpsr)
-       /\ \A r \in PrivRegs : post.R[r] = pre.R[r]
-       /\ post.spsr = pre.spsr /\ post.elr = pre.elr /\ post.sys = pre.sys /\ osys = <<>>
-    \/ ExcEntryShape(pre, post)
-
------------------------------------------------------------------------------
-AllowedOutcomes == {"completed", "undef", "svc", "smc", "dabort", "hyptrap"}
-IsNotImpl(out) == out \in {"notimpl"}
 
 StepVerdict(e, pre, post) ==
   LET r    == StepF(pre, e.act)
